@@ -371,10 +371,21 @@ func (c *ctx) runShard(bin string, spec ev.ShardSpec, n int) shardResult {
 	defer cancel()
 	args := []string{"-test.run", spec.Test, "-test.timeout", "0", "-test.count", "1"}
 	args = append(args, spec.Args...)
-	argv := append(append(append([]string(nil), spec.Wrap...), bin), args...)
+	wrap := append([]string(nil), spec.Wrap...)
+	env := c.baseEnv(out)
+	if spec.AsNobody {
+		sp, _ := exec.LookPath("setpriv")
+		own := filepath.Join(c.work, fmt.Sprintf("unpriv-%04d", n))
+		_ = os.MkdirAll(own, 0o755)
+		for _, p := range []string{out, prog, own} {
+			_ = os.Chown(p, 65534, 65534)
+		}
+		env = append(env, "VERIF_WORK="+own, "HOME="+own, "TMPDIR="+own)
+		wrap = append(wrap, sp, "--reuid=65534", "--regid=65534", "--clear-groups")
+	}
+	argv := append(append(wrap, bin), args...)
 	cmd := exec.CommandContext(cx, argv[0], argv[1:]...)
 	cmd.Dir = filepath.Join(c.harness, c.engineOf(spec))
-	env := c.baseEnv(out)
 	env = append(env, "VERIF_SHARD="+spec.Name, "VERIF_PROGRESS="+prog)
 	if spec.Range {
 		env = append(env, "VERIF_LO="+strconv.FormatUint(spec.Lo, 10), "VERIF_HI="+strconv.FormatUint(spec.Hi, 10))
@@ -534,6 +545,22 @@ func (c *ctx) run() int {
 		}
 		if extra.Rule != "" {
 			plan.Rule += " || " + extra.Rule
+		}
+	}
+	// shards that must run as an unprivileged user need root (to drop from) and setpriv
+	if _, err := exec.LookPath("setpriv"); err != nil || os.Geteuid() != 0 {
+		kept := plan.Shards[:0]
+		dropped := 0
+		for _, sh := range plan.Shards {
+			if sh.AsNobody {
+				dropped++
+				continue
+			}
+			kept = append(kept, sh)
+		}
+		plan.Shards = kept
+		if dropped > 0 {
+			plan.Assumptions = append(plan.Assumptions, fmt.Sprintf("%d shard(s) that run as an unprivileged user were left out (the check was not started as root, or setpriv is missing): permission errors were only exercised through the sandboxed binary", dropped))
 		}
 	}
 	// replay tier: the saved minimal cases of earlier findings, without any generator
